@@ -43,12 +43,15 @@ var (
 	// through int32 is the identity on the bits of an unsigned value), so the form is tied to the arm's kind.
 	reConvCheck  = regexp.MustCompile(`^v = (int32)\(tv\) ; if (float64|int64|int)\(int32\(tv\)\) != tv \{ err = newCoerceErr\((?:v|tv), "\w+"\) \}$`)
 	reConvCheckU = regexp.MustCompile(`^v = (int32)\(tv\) ; if math\.MaxInt32 < tv \{ err = newCoerceErr\((?:v|tv), "\w+"\) \}$`)
+	// unsigned → int64: the converted value is negative exactly when the source was ≥ 2^63
+	reConvCheckU64 = regexp.MustCompile(`^v = (int64)\(tv\) ; if int64\(tv\) < 0 \{ err = newCoerceErr\((?:v|tv), "\w+"\) \}$`)
+	reFmtUint      = regexp.MustCompile(`^v = strconv\.FormatUint\((tv|uint64\(tv\)), 10\)$`)
 	reFailA     = regexp.MustCompile(`^err = newCoerceErr\((v|tv), ("\w+"|t\.N|t\.Name\(\))\) ; v = nil$`)
 	reFailB     = regexp.MustCompile(`^v = nil ; err = newCoerceErr\((v|tv), ("\w+"|t\.N|t\.Name\(\))\)$`)
 	reItoa      = regexp.MustCompile(`^v = strconv\.Itoa\((tv|int\(tv\))\)$`)
 	reFmtInt    = regexp.MustCompile(`^v = strconv\.FormatInt\((tv|int64\(tv\)), 10\)$`)
 	reFmtFloat  = regexp.MustCompile(`^v = strconv\.FormatFloat\((tv|float64\(tv\)), 'g', -1, (32|64)\)$`)
-	reParseInt  = regexp.MustCompile(`^var i int64 ; if i, err = strconv\.ParseInt\(tv, 10, 64\); err == nil \{ v = (int32\(i\)|i) \}$`)
+	reParseInt  = regexp.MustCompile(`^var i int64 ; if i, err = strconv\.ParseInt\(tv, 10, (32|64)\); err == nil \{ v = (int32\(i\)|i) \}$`)
 	reParseFlt  = regexp.MustCompile(`^var f float64 ; if f, err = strconv\.ParseFloat\(tv, 64\); err == nil \{ v = (float32\(f\)|f) \}$`)
 	reParseBool = regexp.MustCompile(`^var b bool ; if b, err = strconv\.ParseBool\(tv\); err == nil \{ v = b \}$`)
 	reNeZero    = regexp.MustCompile(`^v = tv != 0(\.0)?$`)
@@ -85,6 +88,16 @@ func actionOf(body string, pos string, kinds []string) string {
 			return unknown("coerce_arm_bound_check_kind", pos)
 		}
 		return ".convCheckedKeep ." + convTargets[reConvCheckU.FindStringSubmatch(body)[1]]
+	case reConvCheckU64.MatchString(body):
+		if !all(func(k string) bool { return k == "uint" || k == "uint64" }) {
+			return unknown("coerce_arm_sign_check_kind", pos)
+		}
+		return ".convCheckedKeep .i64"
+	case reFmtUint.MatchString(body):
+		if !all(func(k string) bool { return k == "uint" || k == "uint8" || k == "uint16" || k == "uint32" || k == "uint64" }) {
+			return unknown("coerce_arm_fmtuint_kind", pos)
+		}
+		return ".fmtUint"
 	case reConv.MatchString(body):
 		return ".conv ." + convTargets[reConv.FindStringSubmatch(body)[1]]
 	case reFailA.MatchString(body), reFailB.MatchString(body):
@@ -94,10 +107,15 @@ func actionOf(body string, pos string, kinds []string) string {
 	case reFmtFloat.MatchString(body):
 		return ".fmtFloat " + reFmtFloat.FindStringSubmatch(body)[2]
 	case reParseInt.MatchString(body):
-		if reParseInt.FindStringSubmatch(body)[1] == "i" {
+		switch m := reParseInt.FindStringSubmatch(body); {
+		case m[1] == "64" && m[2] == "i":
 			return ".parseIntKeep .i64"
+		case m[1] == "64":
+			return ".parseIntKeep .i32"
+		case m[1] == "32" && m[2] == "int32(i)":
+			return ".parseInt32Keep"
 		}
-		return ".parseIntKeep .i32"
+		return unknown("coerce_arm_parseint_bits", pos)
 	case reParseFlt.MatchString(body):
 		if reParseFlt.FindStringSubmatch(body)[1] == "f" {
 			return ".parseFloatKeep .f64"
